@@ -143,7 +143,7 @@ PROPS = {
         streams=["chain"],
         filter=_chain_filter(completeness=True),
         technique="Lean 4 proof of completeness (all specification clauses ⇒ allowed; exact iff) and of independence from audience/meta/nonce/cause/iat; tied by generated conforming chains in the converse direction (model allows ⇒ Go allows)",
-        level_text="C05_complete, C05_allowed_iff, C05_irrelevant_fields, C05_loadable. Conforming chains are generated (any length ≤ 8/40, repeated principals and self-delegation, attenuating command sequences, satisfiable policies, valid windows) with every irrelevant field varied; every case where the model allows and Go denies is reported.",
+        level_text="C05_complete, C05_allowed_iff, C05_irrelevant_fields, C05_loadable; C05_args_supply_order_irrelevant and C05_args_node_sorted (the node the policies are matched on is Args.ToIPLD = one map with sorted keys, the same for every order in which distinct keys were supplied: Lemmas/ArgsOrder). Conforming chains are generated (any length ≤ 8/40, repeated principals and self-delegation, attenuating command sequences, satisfiable policies, valid windows) with every irrelevant field varied; every case where the model allows and Go denies is reported.",
         level_note=_CHAIN_NOTE,
     ),
     "C14": dict(
@@ -178,7 +178,10 @@ PROPS = {
         props_module="Ucan.Props.C06",
         streams=["token"],
         # incl. sig-old-field, sig-concurrent, hdr-old-sig; field-special: a correctly signed value must come out as signed
-        filter=_token_filter(["token.envelope:sig-", "token.envelope:hdr-", "token.bitflip", "token.honest", "token.field-special:"]),
+        # sp-extra*: an ACCEPTED envelope whose signed map holds more than header + payload was signed over something else than
+        # "the header and payload that were decoded" (the refusal side of these cases is C10's)
+        filter=_either(_token_filter(["token.envelope:sig-", "token.envelope:hdr-", "token.bitflip", "token.honest", "token.field-special:"]),
+                       lambda pid, d: d.get("class", "").startswith("token.envelope:sp-extra") and "go-accepts-model-rejects" in d.get("class", "")),
         technique="Lean 4 proof that an accepted envelope was inspected to exactly [signature, {header, tagged payload}], that the header is the varsig header of the issuer key's type (table regenerated from varsig.go), that the signature verifies under the key of the issuer DID of the DECODED payload over the canonical encoding of the decoded SigPayload, and (with injectivity of the encoding, C08) that every decoded field is a function of the signed bytes; tied by harness-built, re-signed and corrupted envelopes incl. every single-bit flip",
         level_text="C06_verified, C06_decoded_parts_are_signed, C06_fields_function_of_signed_bytes, C06_inspect_shape for every node and every instantiation of the crypto parameters. Go's six decoders are compared with the model on honest tokens (3–5 key algorithms), foreign/garbage/missing varsig headers, signatures by another key, truncated/empty/non-bytes signatures, and every third (every, thorough) single-bit flip of sealed Ed25519 tokens; accept/reject and all decoded fields.",
         level_note=_TOKEN_NOTE + " Conditional on EUF-CMA of the signature schemes: the theorems reduce 'no accepted modification changes a field' to 'no valid signature on a different message', they do not prove unforgeability.",
